@@ -56,6 +56,9 @@ RULE = (
     " a target (plain, re-signed, re-encrypted, bombs) take turns under the time cap."
     " USM blocks with one field retagged (INTEGER/NULL/SEQUENCE/application) and a short cont"
     "ent; 400 (thorough 12000) exchanges on one client with flat library-attributed memory."
+    " Edge datagrams (0 octets .. values nested 300 deep) through the library's own UDP sende"
+    'r on the virtual-time loop, DEBUG logging off and on, under the step budget; one soak ex'
+    'change in five is a SET refused with the same error.'
 )
 ASSUMPTIONS = [
     "steps = sys.monitoring JUMP|PY_START|PY_RESUME|PY_THROW events inside puresnmp, puresnmp_plugins and x690 (every loop iteration takes a backward jump, every call a PY_START)",
